@@ -2,6 +2,7 @@ package main
 
 import (
 	"bytes"
+	"context"
 	"encoding/json"
 	"fmt"
 	"io"
@@ -31,6 +32,7 @@ type c20Scenario struct {
 	requests   int    // per client
 	mix        string // instant | busy | mixed | hang
 	early      bool   // clients start as soon as the first worker is up (traffic during master start-up)
+	unix       bool   // the master listens on a unix socket (-l unix:///path) instead of TCP
 	pidns      bool   // the master runs as process 1 of a new PID namespace (a container's entry point)
 	execDelay  int    // ms, via strace execve delay injection
 	workerSlow int    // ms, worker start-up delay
@@ -140,7 +142,18 @@ func runC20Scenario(c *Ctx, bin string, sc c20Scenario, idx int) (res c20Result)
 	}
 	logPath := filepath.Join(dir, "events.log")
 	pidFile := filepath.Join(dir, "master.pid")
-	args := []string{"-addr", fmt.Sprintf("tcp://127.0.0.1:%d", port), "-init", fmt.Sprint(sc.initP), "-max", fmt.Sprint(sc.maxP), "-timeout", fmt.Sprint(sc.timeout), "-log", logPath, "-pidfile", pidFile, "-workerdelay", fmt.Sprint(sc.workerSlow)}
+	netw, dialAddr, listenURL := "tcp", fmt.Sprintf("127.0.0.1:%d", port), fmt.Sprintf("tcp://127.0.0.1:%d", port)
+	if sc.unix {
+		sockDir, err := os.MkdirTemp("", "c20sock")
+		if err != nil {
+			res.err = "no directory for the socket"
+			return
+		}
+		defer os.RemoveAll(sockDir)
+		netw, dialAddr = "unix", filepath.Join(sockDir, "z.sock")
+		listenURL = "unix://" + dialAddr
+	}
+	args := []string{"-addr", listenURL, "-init", fmt.Sprint(sc.initP), "-max", fmt.Sprint(sc.maxP), "-timeout", fmt.Sprint(sc.timeout), "-log", logPath, "-pidfile", pidFile, "-workerdelay", fmt.Sprint(sc.workerSlow)}
 	var cmd *exec.Cmd
 	if sc.execDelay > 0 {
 		sargs := append([]string{"-f", "-o", "/dev/null", "-e", "trace=execve", "-e", fmt.Sprintf("inject=execve:delay_enter=%d", sc.execDelay*1000), bin}, args...)
@@ -202,6 +215,16 @@ func runC20Scenario(c *Ctx, bin string, sc c20Scenario, idx int) (res c20Result)
 		if master > 0 {
 			if w, _, _ := childrenOf(master); w >= minInt(sc.initP, sc.maxP) || (sc.early && w >= 1) {
 				break
+			}
+			if st, err := os.ReadFile(fmt.Sprintf("/proc/%d/stat", master)); err != nil || strings.Contains(string(st), ") Z ") {
+				// the master is gone before its initial workers were up
+				time.Sleep(100 * time.Millisecond)
+				if strings.Contains(stderr.String(), "panic:") || strings.Contains(stderr.String(), "fatal error:") {
+					res.masterDied = "the master process ended before its initial workers were up: " + clip(stderr.String(), 400)
+				} else {
+					res.err = "master ended during start-up (inconclusive): " + clip(stderr.String(), 300)
+				}
+				return
 			}
 		}
 		time.Sleep(20 * time.Millisecond)
@@ -268,7 +291,10 @@ func runC20Scenario(c *Ctx, bin string, sc c20Scenario, idx int) (res c20Result)
 		go func(ci int) {
 			defer cwg.Done()
 			rng := rand.New(rand.NewSource(c.Seed*7919 + int64(idx)*131 + int64(ci)))
-			client := &http.Client{Timeout: 40 * time.Second, Transport: &http.Transport{DisableKeepAlives: true}}
+			client := &http.Client{Timeout: 40 * time.Second, Transport: &http.Transport{DisableKeepAlives: true, DialContext: func(ctx context.Context, _, _ string) (net.Conn, error) {
+				var d net.Dialer
+				return d.DialContext(ctx, netw, dialAddr)
+			}}}
 			for k := 0; k < sc.requests; k++ {
 				kind := "instant"
 				switch sc.mix {
@@ -309,7 +335,7 @@ func runC20Scenario(c *Ctx, bin string, sc c20Scenario, idx int) (res c20Result)
 					// Waiting 6 x --timeout before calling it "never" keeps load effects out.
 					atomic.AddInt64(&outstanding, 1)
 					rec := reqRec{tok: tok0(idx, ci, k), kind: kind, start: time.Now().UnixNano()}
-					if conn, err := net.DialTimeout("tcp", fmt.Sprintf("127.0.0.1:%d", port), 5*time.Second); err == nil {
+					if conn, err := net.DialTimeout(netw, dialAddr, 5*time.Second); err == nil {
 						if kind == "stall-headers" {
 							conn.Write([]byte("POST /?t=" + rec.tok + " HTTP/1.1\r\nHost: x\r\nContent-Type: application/json\r\n"))
 						} else {
@@ -343,7 +369,7 @@ func runC20Scenario(c *Ctx, bin string, sc c20Scenario, idx int) (res c20Result)
 					rec := reqRec{tok: tok0(idx, ci, k), kind: kind, start: time.Now().UnixNano()}
 					part := time.Duration(700*sc.timeout) * time.Millisecond
 					body, _ := json.Marshal(map[string]string{"VarInput": "", "SourceCode": c20Program("instant", rec.tok, rng)})
-					if conn, err := net.DialTimeout("tcp", fmt.Sprintf("127.0.0.1:%d", port), 5*time.Second); err == nil {
+					if conn, err := net.DialTimeout(netw, dialAddr, 5*time.Second); err == nil {
 						conn.Write([]byte(fmt.Sprintf("POST /?t=%s&sleep=%d HTTP/1.1\r\nHost: x\r\n", rec.tok, 700*sc.timeout)))
 						time.Sleep(part)
 						conn.Write([]byte(fmt.Sprintf("Content-Type: application/json\r\nContent-Length: %d\r\n\r\n", len(body))))
@@ -368,7 +394,7 @@ func runC20Scenario(c *Ctx, bin string, sc c20Scenario, idx int) (res c20Result)
 					// and ends (with status 0 in the real command); the pool must recover.
 					atomic.AddInt64(&outstanding, 1)
 					rec := reqRec{tok: tok, kind: kind, start: time.Now().UnixNano()}
-					if conn, err := net.DialTimeout("tcp", fmt.Sprintf("127.0.0.1:%d", port), 5*time.Second); err == nil {
+					if conn, err := net.DialTimeout(netw, dialAddr, 5*time.Second); err == nil {
 						switch rng.Intn(4) {
 						case 0:
 							conn.Write([]byte("\x00\x01\x02 not http\r\n\r\n"))
@@ -648,6 +674,11 @@ waitClients:
 				res.failed++
 				continue
 			}
+			if res.maxLive == 0 && tokStarts[r.tok] == 0 {
+				// not a timing effect: at no sample of the whole run was there any worker
+				res.unexpected = append(res.unexpected, fmt.Sprintf("request %s was accepted by the listening socket but no worker process existed at any time of the run (%d process-table samples): %s", r.tok, res.samples, clip(r.err, 120)))
+				continue
+			}
 			if r.err != "" && float64(r.end-r.start)/1e9 >= 0.8*float64(sc.timeout) {
 				// on a loaded machine an ordinary request can itself outlive --timeout: the server
 				// then rightly terminates its worker; a wall-clock effect, not judged
@@ -684,7 +715,7 @@ func readPid(path string) int {
 }
 
 func checkC20(c *Ctx) {
-	c.rule = "the real ZnPMServer master and real worker processes (pmharness: pkg/server + playground handler, hook H1) are started per scenario; scenarios = configurations 1 <= init <= max <= 4 x client concurrency 1..16 x request mix (instant, busy loops, one / two / three requests that outlive --timeout at the same moment, connections that carry no HTTP request so that the accepting worker ends with status 0, requests that stall after part of their headers / part of their body) x scripted kill -9 of one or several live workers at once x execve delay injected with strace (0/5/20/60/150 ms, widens the window between 'spawned' and 'registered') x slow worker start-up x traffic that begins while the master is still starting its initial workers x --init-procs above --max-procs x the master running as process 1 of its own PID namespace x a request whose head arrives slowly and whose handler is slow (together longer than --timeout). Monitors: /proc children of the master every 2 ms (live workers <= max at every sample; init <= live <= max at a quiescent point = no request outstanding and live set unchanged for 1.5 s); offline checker over the handler log written at the worker boundary (per-worker request intervals never overlap, every token handled once, response == own token, timed-out worker gone); race-detector reports of a -race build are recorded for information only. distinct_nontrivial = distinct (scenario parameters) + distinct 4-grams over {worker_start, req_start, req_end} events seen"
+	c.rule = "the real ZnPMServer master and real worker processes (pmharness: pkg/server + playground handler, hook H1) are started per scenario; scenarios = configurations 1 <= init <= max <= 4 x client concurrency 1..16 x request mix (instant, busy loops, one / two / three requests that outlive --timeout at the same moment, connections that carry no HTTP request so that the accepting worker ends with status 0, requests that stall after part of their headers / part of their body) x scripted kill -9 of one or several live workers at once x execve delay injected with strace (0/5/20/60/150 ms, widens the window between 'spawned' and 'registered') x slow worker start-up x traffic that begins while the master is still starting its initial workers x --init-procs above --max-procs x the master running as process 1 of its own PID namespace x a unix:// listening socket x --init-procs 0 x a request whose head arrives slowly and whose handler is slow (together longer than --timeout). Monitors: /proc children of the master every 2 ms (live workers <= max at every sample; init <= live <= max at a quiescent point = no request outstanding and live set unchanged for 1.5 s); offline checker over the handler log written at the worker boundary (per-worker request intervals never overlap, every token handled once, response == own token, timed-out worker gone); race-detector reports of a -race build are recorded for information only. distinct_nontrivial = distinct (scenario parameters) + distinct 4-grams over {worker_start, req_start, req_end} events seen"
 	c.assumptions = []string{"a child that has been forked but has not exec'd yet is reported separately and not counted as a live worker", "strace execve delay injection only delays, it does not change behaviour", "not reaching a quiescent point within 60 s is inconclusive, not a violation"}
 	if _, err := exec.LookPath("strace"); err != nil {
 		c.Inconclusive("strace not found: " + err.Error())
@@ -704,6 +735,9 @@ func checkC20(c *Ctx) {
 		}
 		if s.pidns {
 			s.name += "-pidns"
+		}
+		if s.unix {
+			s.name += "-unix"
 		}
 		scenarios = append(scenarios, s)
 	}
@@ -731,6 +765,8 @@ func checkC20(c *Ctx) {
 		add(c20Scenario{initP: 4, maxP: 2, timeout: 2, clients: 6, requests: 6, mix: "busy"})
 		add(c20Scenario{initP: 20, maxP: 4, timeout: 2, clients: 8, requests: 6, mix: "mixed", kills: 2})
 		add(c20Scenario{initP: 2, maxP: 3, timeout: 2, clients: 4, requests: 6, mix: "mixed", pidns: true})
+		add(c20Scenario{initP: 2, maxP: 3, timeout: 2, clients: 6, requests: 6, mix: "mixed", unix: true})
+		add(c20Scenario{initP: 0, maxP: 2, timeout: 2, clients: 2, requests: 3, mix: "instant"})
 		add(c20Scenario{initP: 3, maxP: 3, timeout: 2, clients: 6, requests: 6, mix: "busy", execDelay: 60, early: true})
 		add(c20Scenario{initP: 2, maxP: 4, timeout: 2, clients: 8, requests: 6, mix: "mixed", execDelay: 40, early: true})
 		add(c20Scenario{initP: 4, maxP: 4, timeout: 2, clients: 4, requests: 6, mix: "busy", early: true})
